@@ -45,6 +45,18 @@ type TextAttr struct {
 	LetterSpacing string   `xml:"letter-spacing,attr,omitempty"`
 }
 
+// withOwn returns a with the colors an element already carries itself, such
+// as the fill of the `clear` rectangle or the stroke of a grid, kept.
+func (a Attr) withOwn(own Attr) Attr {
+	if own.Fill != "" {
+		a.Fill = own.Fill
+	}
+	if own.Stroke != "" {
+		a.Stroke = own.Stroke
+	}
+	return a
+}
+
 type (
 	attrSetter     interface{ setAttr(a Attr) }
 	textAttrSetter interface{ setTextAttr(ta TextAttr) }
@@ -58,7 +70,7 @@ type Group struct {
 	Elements []any `xml:""` // circle, rect, ...
 }
 
-func (g *Group) setAttr(a Attr)          { g.Attr = a }
+func (g *Group) setAttr(a Attr)          { g.Attr = a.withOwn(g.Attr) }
 func (g *Group) setTextAttr(ta TextAttr) { g.TextAttr = ta }
 
 // Line represents an SVG line element <line>.
@@ -94,7 +106,7 @@ type Rect struct {
 	Height string  `xml:"height,attr"`
 }
 
-func (r *Rect) setAttr(a Attr) { r.Attr = a }
+func (r *Rect) setAttr(a Attr) { r.Attr = a.withOwn(r.Attr) }
 
 // Polyline represents an SVG polyline element <polyline>.
 type Polyline struct {
